@@ -22,6 +22,7 @@ struct ScriptCfg {
     bool ragged = false;
     bool nameVariants = false;    // parameter / group names that are case variants of other names, names and descriptions beyond what a file holds
     bool framesParam = false;     // POINT:FRAMES edited by hand at the end
+    bool keepRefused = false;     // a parameter whose set() was refused is handed over all the same (it still holds its old content)
     bool selfParam = false;       // a parameter of the object handed back to it by reference
     bool raggedSub = false;       // frames whose later sub-frame holds one channel fewer (accepted by frame(): only sub-frame 0 is checked)
 };
@@ -36,7 +37,7 @@ static rc::Gen<long long> dimEntry() {
                                         {3, g::elementOf(std::vector<long long>{4, 5, 8})}, {2, g::elementOf(std::vector<long long>{16, 32, 100})},
                                         {1, g::elementOf(std::vector<long long>{255, 128, 127})}});
 }
-static rc::Gen<Op> gParam(bool bad, bool variants = false) {
+static rc::Gen<Op> gParam(bool bad, bool variants = false, bool keepRefused = false) {
     auto grp = variants ? g::weightedOneOf<long long>({{2, g::just<long long>(0)}, {2, g::just<long long>(1)}, {1, g::just<long long>(2)}, {6, sized(3, 9)}, {1, g::map(sized(0, 9), [](long long v) { return v + 700000; })}})
                         : g::weightedOneOf<long long>({{2, g::just<long long>(0)}, {2, g::just<long long>(1)}, {1, g::just<long long>(2)}, {6, sized(3, 9)}});
     auto name = variants ? g::weightedOneOf<long long>({{12, sized(0, 14)}, {1, g::just<long long>(-1)}, {3, g::map(sized(0, 14), [](long long v) { return v + 700000; })}, {1, g::map(sized(0, 14), [](long long v) { return v + 800000; })}})
@@ -47,7 +48,7 @@ static rc::Gen<Op> gParam(bool bad, bool variants = false) {
     // nd == 0: delta is the element count
     auto nd = g::weightedOneOf<long long>({{4, g::just<long long>(0)}, {3, g::just<long long>(1)}, {3, g::just<long long>(2)}, {2, g::just<long long>(3)}, {2, uni(4, 7)}});
     return g::mapcat(nd, [=](long long ndv) {
-        std::vector<rc::Gen<long long>> a = {grp, name, type, g::weightedOneOf<long long>({{3, uni(0, 1)}, {1, uni(2, 3)}}), variants ? g::weightedOneOf<long long>({{15, descLen()}, {1, g::elementOf(std::vector<long long>{256, 300, 400})}}) : descLen(), seedv(),
+        std::vector<rc::Gen<long long>> a = {grp, name, type, keepRefused ? g::weightedOneOf<long long>({{3, uni(0, 1)}, {1, uni(2, 3)}, {2, uni(6, 7)}}) : g::weightedOneOf<long long>({{3, uni(0, 1)}, {1, uni(2, 3)}}), variants ? g::weightedOneOf<long long>({{15, descLen()}, {1, g::elementOf(std::vector<long long>{256, 300, 400})}}) : descLen(), seedv(),
                                              ndv == 0 ? g::weightedOneOf<long long>({{3, g::just<long long>(1)}, {3, sized(0, 12)}, {1, g::just<long long>(0)}}) : delta,
                                              g::just(ndv)};
         for (long long i = 0; i < ndv; ++i) a.push_back(dimEntry());
@@ -73,7 +74,7 @@ static rc::Gen<Op> gSetupOp(const ScriptCfg &c, bool rates = true) {
         {3, rates ? op("prate", {uni(0, kNumRates - 1)}) : op("obs", {})},
         {3, rates ? op("arate", {sized(0, 9)}) : op("obs", {})},
         {2, (rates && c.lateRates) ? op("pratex", {uni(0, kNumRates - 1), uni(-9, 9)}) : op("obs", {})},
-        {6, gParam(c.badParams, c.nameVariants)},
+        {6, gParam(c.badParams, c.nameVariants, c.keepRefused)},
         {1, op("lockg", {c.badParams ? sized(0, 12) : sized(0, 9)})},
         {1, op("unlockg", {c.badParams ? sized(0, 12) : sized(0, 9)})},
     });
@@ -107,7 +108,7 @@ static rc::Gen<Op> gEditOp(const ScriptCfg &c) {
     std::vector<std::pair<size_t, rc::Gen<Op>>> w = {
         {4, op("pcol", {sized(0, 30), uni(0, 2), colDev(c, false), seedv()})},
         {4, op("acol", {sized(0, 30), uni(0, 2), colDev(c, true), seedv()})},
-        {4, gParam(c.badParams, c.nameVariants)},
+        {4, gParam(c.badParams, c.nameVariants, c.keepRefused)},
         {1, op("lockg", {sized(0, 9)})},
         {1, op("unlockg", {sized(0, 9)})},
     };
@@ -123,7 +124,9 @@ static rc::Gen<Op> gEditOp(const ScriptCfg &c) {
     }
     if (c.reload) w.push_back({2, op("reload", {})});
     if (c.print) w.push_back({1, op("print", {})});
+    if (c.selfParam && c.callerReuse) w.push_back({2, op("selfelem", {uni(0, 3), uni(0, 2), sized(0, 12), g::weightedOneOf<long long>({{3, uni(0, 3)}, {2, uni(4, 39)}})})});
     if (c.selfParam) w.push_back({2, op("selfparam", {sized(0, 12), sized(0, 12), sized(3, 40)})});
+    if (c.badParams) w.push_back({1, op("dimq", {g::weightedOneOf<long long>({{2, uni(0, 3)}, {3, sized(2, 40)}}), g::weightedOneOf<long long>({{2, g::just<long long>(0)}, {3, uni(1, 3)}}), dimEntry(), dimEntry(), dimEntry()})});
     return weighted<Op>(w);
 }
 static rc::Gen<std::vector<Op>> one(rc::Gen<Op> o) { return g::map(o, [](Op x) { return std::vector<Op>{x}; }); }
@@ -173,7 +176,7 @@ static ScriptCfg cfgFor(const std::string &id, int tier) {
     else if (id == "C08") { c.callerReuse = true; c.fillAtEnd = false; }
     else if (id == "C09") { c.badParams = true; c.nameVariants = true; c.selfParam = true; c.fillAtEnd = false; c.maxFrames = 2; }
     else if (id == "C10") { c.deviations = true; c.badParams = true; c.nameVariants = true; c.ragged = true; c.reload = true; c.fillAtEnd = false; }
-    else if (id == "C13") { c.selfParam = true; c.deviations = true; c.badParams = true; c.callerReuse = true; c.reload = true; c.print = true; c.ragged = false; }
+    else if (id == "C13") { c.selfParam = true; c.keepRefused = true; c.deviations = true; c.badParams = true; c.callerReuse = true; c.reload = true; c.print = true; c.ragged = false; }
     else if (id == "C14") { c.print = false; c.raggedSub = true; }
     else if (id == "C15") { c.framesParam = true; }
     return c;
